@@ -366,13 +366,19 @@ func runReplayTest(cfg *Config, ld *Loaded, o *Obligation, replayPath, tmpl stri
 	testFile := filepath.Join(dir, base+"_test.go")
 	os.WriteFile(testFile, []byte(src), 0o644)
 	pkgDir := filepath.Dir(ld.fset.Position(o.Unit.fn.Pos()).Filename)
+	// "//govc:dir <dir relative to the repository>": the template is a test of another package than the unit's
+	for _, l := range strings.Split(tmpl, "\n") {
+		if t := strings.TrimSpace(l); strings.HasPrefix(t, "//govc:dir ") {
+			pkgDir = filepath.Join(cfg.Repo, strings.TrimSpace(t[len("//govc:dir "):]))
+		}
+	}
 	ov := map[string]interface{}{"Replace": map[string]string{filepath.Join(pkgDir, "zz_govc_replay_test.go"): testFile}}
 	ovData, _ := json.Marshal(ov)
 	ovFile := filepath.Join(dir, base+"_overlay.json")
 	os.WriteFile(ovFile, ovData, 0o644)
 	ctx, cancel := context.WithTimeout(context.Background(), 180*time.Second)
 	defer cancel()
-	cmd := exec.CommandContext(ctx, "go", "test", "-overlay", ovFile, "-vet=off", "-count=1", "-timeout", "60s", "-v", "-run", "^TestGovcReplay$", ".")
+	cmd := exec.CommandContext(ctx, "go", "test", "-overlay", ovFile, "-vet=off", "-count=1", "-timeout", "150s", "-v", "-run", "^TestGovcReplay$", ".")
 	cmd.Dir = pkgDir
 	cmd.Env = append(os.Environ(), "GOFLAGS=-mod=mod", "GOPROXY=off", "GOSUMDB=off", "GOTOOLCHAIN=local", "LOG_LEVEL=fatal")
 	var buf bytes.Buffer
